@@ -339,7 +339,7 @@ def run(ctx):
         differential(ctx, "two1", "S_t1d", jobs)
         jobs = two_client_jobs(ctx, "q0i2", "S_q1", nb=3000, max_pw=0, inst_a=2, emit_mod=300, timeout=1500)
         differential(ctx, "two2", "S_q1", jobs)
-        noninterf_model(ctx, "qsim", "S_q1", exhaustive=False, simulate="num=60000", depth=40, workers=12, timeout=400,
+        noninterf_model(ctx, "qsim", "S_q1", exhaustive=False, simulate="num=6000", depth=40, workers=12, timeout=900,
                         inst_a=2, others="O2")
         for table in ("S_q1", "S_t1b", "S_t1d", "S_t1a"):
             jobs = three_client_jobs(ctx, "three" + table, table, nmerge=1200, emit_mod=20, max_inst=2, max_pw=1, stray=1)
